@@ -358,6 +358,7 @@ Property make() {
   p.id = "C15"; p.level = "exploration"; p.design_ref = "DESIGN.md §7 C15";
   p.rule = "plan = histogram over 1-3 scalar variables (5 kinds); 45% of the non-periodic dimensions take their boundaries, bit for bit, from two values the variable itself takes during the run (2-8 bins between them), the others get 3-9 bins over 0.5-1.3 of the visited range; "
            "60-120 steps in 1-4 run segments with stop/restart through a text or binary state file; non-trivial = at least one in-range eligible sample; distinct = hash of (kinds, edge flags, segmentation, state format)";
+  p.rule += " Later additions: custom grids cut each dimension independently; a third of the text restarts multiply the state's counts by a large odd factor; a third of the plans compare the TI count grid of a restraint (writeTISamples) with the same reference.";
   p.assumptions = {"the reference applies the half-open rule with the same floating-point expression floor((x - lower)/width) to the value the variable reports; wrapping and range test are its own",
                    "eligible = not the first evaluation of a run or instance (the run-boundary rule; stepZeroData off)",
                    "gatherVectorColvars weights, DX and raw grid readers are not checked; the restart form is checked through the state after reload"};
